@@ -729,9 +729,10 @@ SEL = {
 DML = {"kind": 3, "vals": 6, "v": 4, "v2": 3, "vs": 3, "ret": 3, "onc": 4, "dwhere": 3, "inline": 2, "prefix": 2, "pk": 4, "incdef": 2, "many": 2}
 TYPES = {"tcls": 28, "arg": 3, "va": 7, "v": 4}   # class / argument indices beyond the catalogue are skipped
 SIB = {"va": 4, "vb": 4}
+NEST = {"form": 3, "va": 4, "vb": 4}
 ORM = {"ent": 4, "where": 4, "v": 4, "join": 3, "opt": 7, "order": 2, "limit": 2, "alias": 2}
 LITERAL_COORDS = {"v", "v2", "vs", "pk", "pm"}  # coordinates that only change values (pm: where the value of "p" comes from)
-FAMS = {"select": SEL, "dml": DML, "orm": ORM, "types": TYPES, "sib": SIB}
+FAMS = {"select": SEL, "dml": DML, "orm": ORM, "types": TYPES, "sib": SIB, "nest": NEST}
 
 _S = {}
 
@@ -1143,8 +1144,29 @@ def build_sib(p):
     return select(a.c.id, b.c.id).order_by(a.c.id, b.c.id), None
 
 
+def build_nest(p):
+    """the same parameter name given with .params() at two NESTING levels (parent / child): the enclosing
+    statement's value must win whether the values travel with the cache key or are collected by the compiler"""
+    from sqlalchemy import bindparam, select, union
+
+    S = _schema()
+    t = S["t"]
+    va, vb = INTS[p.get("va", 0)], INTS[p.get("vb", 0)]
+    form = p.get("form", 0)
+    inner = select(t.c.id, t.c.x).where(t.c.x == bindparam("p")).params(p=va)
+    if form == 0:
+        sq = inner.subquery("n")
+        return select(sq.c.id, sq.c.x).order_by(sq.c.id).params(p=vb), None
+    if form == 1:
+        return union(inner, select(t.c.id, t.c.y).where(t.c.id < 0)).params(p=vb), None
+    c = inner.cte("nc")
+    return select(c.c.id).where(c.c.x.is_not(None)).order_by(c.c.id).params(p=vb), None
+
+
 def build(fam, p):
     """-> (statement, execution parameters or None)"""
+    if fam == "nest":
+        return build_nest(p)
     if fam == "types":
         return build_types(p)
     if fam == "sib":
@@ -2052,6 +2074,11 @@ def gen_cases(rng, tier):
         a = {"va": i, "vb": (i + 1) % 4}
         b = {"va": (i + 2) % 4, "vb": i}
         cases.append({"in": [_rtree("sib", a), _rtree("sib", b)], "mode": "pair", "fam": "sib", "a": a, "b": b, "kind": "pair-sib:values", "model": False})
+    for form in range(NEST["form"]):
+        for i in range(4 if thorough else 2):
+            a = {"form": form, "va": i, "vb": (i + 1) % 4}
+            b = {"form": form, "va": (i + 2) % 4, "vb": (i + 3) % 4}
+            cases.append({"in": [_rtree("nest", a), _rtree("nest", b)], "mode": "pair", "fam": "nest", "a": a, "b": b, "kind": "pair-nest:values", "model": False})
     nr = 400 if thorough else 40
     for j in range(nr):
         fam = rng.choice(["select", "select", "dml"])
